@@ -86,9 +86,25 @@ def run(ctx):
             allops = []
         if ctx.over_budget():
             break
+    # tconnect.c's side of the hand-over: it applies, and hands back, the options as they were when tconnect_connect() was called,
+    # whatever the caller does to its own structure afterwards (the TcpOpts model's `snapshot`)
+    from gen import tconnect as _tc
+    texe = _tc.build()
+    tops = []
+    for k in range(40 if quick else 1500):
+        tops += _tc.gen_history(ctx.rng.fork("c11tc%d" % k), ctx)
+    tops = _tc.truncate_after_terminal(tops, common.run_model("tconnect", "\n".join(tops) + "\n"))
+    tm, til = ctx.differential("unit_tconnect", "tconnect", texe, tops, label="tconnect snapshot")
+    for o2, l2 in zip(tops, til):
+        if "not-the-snapshot" in l2:
+            ctx.violation("unit_tconnect:monitor:options-not-snapshot", "tconnect.c applied or handed back options other than those given to "
+                          "tconnect_connect() (the caller changed its own structure afterwards): %s -> %s" % (o2, l2),
+                          {"harness": "unit_tconnect", "ops": tops[:tops.index(o2) + 1][-6:], "impl_out": l2})
+            break
+    ctx.rule += (" unit_tconnect: the real tconnect.c; the caller's option structure is changed right after tconnect_connect() returned; "
+                 "every tcp_opts_effectuate call and the options handed back with the connected descriptor must be the snapshot.")
     sys_part(ctx)
-    ctx.assumptions += ["setsockopt succeeds and the kernel then holds the value (K-setsockopt)",
-                        "tconnect.c applies its snapshot to every socket it creates (tied separately under C13)"]
+    ctx.assumptions += ["setsockopt succeeds and the kernel then holds the value (K-setsockopt)"]
 
 
 def monitor(ctx, ops, out):
@@ -107,6 +123,11 @@ def monitor(ctx, ops, out):
 
 
 def replay(path):
+    import json as _json
+    h = _json.load(open(path)).get("harness")
+    if h == "unit_tconnect":
+        from gen.props.C13 import replay as r13
+        return r13(path)
     from gen.props.C02 import replay as r
     return r(path)
 
